@@ -450,6 +450,15 @@ def arg_lang(c, facts, b, g, spec, scope, prim):
         t = rx.tail_expr(fn.body)
         ok = t is not None and len(fn.body["stmts"]) == 1 and t["k"] == "field" and rx.is_var(t["e"], "self") and t["name"] == "0"
         c.ob("C05.arg-lang", key, "conversion is the identity on the wrapped value", ok, "into() = `%s`" % (src(t) if t is not None else "?"))
+    for key, fn in sorted(facts.fns.items()):
+        m_ = re.match(r"<(\w+) as From<(\w+)(<.*>)?>>::from$", key)
+        if fn.test or not m_ or m_.group(2) not in facts.structs or m_.group(1) not in facts.enums:
+            continue
+        # the same conversion written as `impl From<Wrapper> for TimeSpec`
+        t = rx.tail_expr(fn.body)
+        pn = fn.params[0][0] if fn.params else None
+        ok = t is not None and len(fn.body["stmts"]) == 1 and t["k"] == "field" and rx.is_var(t["e"], pn) and t["name"] == "0"
+        c.ob("C05.arg-lang", key, "conversion is the identity on the wrapped value", ok, "from() = `%s`" % (src(t) if t is not None else "?"))
     # 2. unit tables (Size, TimeSpec), file types
     def unit_rule(tyname, want_table, want_default, label):
         found = None
